@@ -143,6 +143,35 @@ class _NeedsReordering(Exception):
     """Raise this to request reordering."""
 
 
+class _ReorderingSuspended:
+    """Context manager that suspends reordering requests.
+
+    For operations that create nodes outside
+    the decorator `_try_to_reorder`, and so can
+    neither serve a request, nor be interrupted by one.
+    """
+
+    def __init__(
+            self,
+            bdd:
+                'BDD'
+            ) -> None:
+        self.bdd = bdd
+        self.last_len = None
+
+    def __enter__(
+            self):
+        self.last_len = self.bdd._last_len
+        self.bdd._last_len = None
+
+    def __exit__(
+            self,
+            ex_type,
+            ex_value,
+            tb):
+        self.bdd._last_len = self.last_len
+
+
 _Yes: _ty.TypeAlias = dd._abc.Yes
 _Nat: _ty.TypeAlias = dd._abc.Nat
 _Cardinality: _ty.TypeAlias = dd._abc.Cardinality
@@ -1653,6 +1682,28 @@ class BDD(dd._abc.BDD[_Ref]):
         @param x, y:
             variable name or level
         """
+        # a reordering request cannot
+        # interrupt a swap
+        with _ReorderingSuspended(self):
+            return self._swap(x, y, all_levels)
+
+    def _swap(
+            self,
+            x:
+                _VariableName |
+                _Level,
+            y:
+                _VariableName |
+                _Level,
+            all_levels:
+                dict[
+                    _Level,
+                    set[_Ref]] |
+                None=None
+            ) -> tuple[
+                _Nat,
+                _Nat]:
+        """Permute adjacent variables `x` and `y`."""
         if all_levels is None:
             self.collect_garbage()
             all_levels = self._levels()
@@ -2427,13 +2478,14 @@ class BDD(dd._abc.BDD[_Ref]):
                 j = self.add_var(var)
             level_map[i] = j
         umap = dict()
-        for u in succ:
-            # already added ?
-            if u in umap:
-                continue
-            # add
-            self._load(
-                u, succ, umap, level_map)
+        with _ReorderingSuspended(self):
+            for u in succ:
+                # already added ?
+                if u in umap:
+                    continue
+                # add
+                self._load(
+                    u, succ, umap, level_map)
         return umap, d['roots']
 
     def _load(
@@ -2774,9 +2826,10 @@ def image(
     s.intersection_update(rename.values())
     if s:
         raise AssertionError(s)
-    return _image(
-        trans, source, rename_u, rename_v,
-        qvars, bdd, forall, cache)
+    with _ReorderingSuspended(bdd):
+        return _image(
+            trans, source, rename_u, rename_v,
+            qvars, bdd, forall, cache)
 
 
 def preimage(
@@ -2827,9 +2880,10 @@ def preimage(
     rename_v = rename
     # check
     _assert_valid_rename(target, bdd, rename)
-    return _image(
-        trans, target, rename_u, rename_v,
-        qvars, bdd, forall, cache)
+    with _ReorderingSuspended(bdd):
+        return _image(
+            trans, target, rename_u, rename_v,
+            qvars, bdd, forall, cache)
 
 
 def _image(
@@ -3134,10 +3188,11 @@ def copy_bdd(
             to_bdd.level_of_var(var)
         for var in from_bdd.vars
         if var in to_bdd.vars}
-    r = _copy_bdd(
-        u, level_map,
-        from_bdd, to_bdd,
-        cache=dict())
+    with _ReorderingSuspended(to_bdd):
+        r = _copy_bdd(
+            u, level_map,
+            from_bdd, to_bdd,
+            cache=dict())
     return r
 
 
